@@ -86,6 +86,10 @@ def schedule_scenarios(seed, n):
         sss = {"jitter": rnd.choice([None, 0.0, 0.1]), "adapt_options": {"method": method}}
         # configured (non-default) estimator options: an own random generator so that the rest of the scenario does not shift
         ro = random.Random(seed * 977 + i)
+        if ro.random() < 0.35:
+            sss["target_accept"] = ro.choice([0.6, 0.9, 0.95, 0.7])
+        if ro.random() < 0.25:
+            sss["initial_step"] = ro.choice([0.5, 1.0, 0.02])
         if ro.random() < 0.4 and method in ("DualAverage", "Adam"):
             if method == "DualAverage":
                 sss["adapt_options"]["dual_average"] = {"k": ro.choice([0.75, 0.6, 1.0]), "t0": ro.choice([10.0, 3.0, 25.0]),
